@@ -308,7 +308,7 @@ class Vals:
             j = Int('j!cp')
             ex.fact(And(tag(r) == LIST_T, ln(r) == ln(a0.t), ForAll([j], at(r, j) == at(a0.t, j), patterns=[at(r, j)])))
             return V(r)
-        if fname in ('min', 'all', 'any') and len(args) == 1 and a0.kind == 'lazylist' and not kwargs:
+        if fname in ('min', 'max', 'all', 'any') and len(args) == 1 and a0.kind == 'lazylist' and not kwargs:
             return self._fold_bools(ex, st, fname, a0)
         return NotImplemented
 
@@ -323,10 +323,10 @@ class Vals:
         jb = Int(fresh_name('jb'))
         body = z3.substitute(el.t, (j, jb))
         rng = And(0 <= jb, jb < lst.n)
-        if fname == 'min':
+        if fname in ('min', 'max'):
             ex.raise_if(st, lst.n == 0, 'ValueError')
-            ex.use('axiom:min of a non-empty list of booleans is their conjunction (False < True)')
-        if fname == 'any':
+            ex.use('axiom:min / max of a non-empty list of booleans is their conjunction / disjunction (False < True)')
+        if fname in ('any', 'max'):
             return B(Exists([jb], And(rng, body)))
         return B(ForAll([jb], Implies(rng, body)))
 
